@@ -115,6 +115,32 @@ def gen_call(g, schema, alt_schemas):
     return (api, doc, kw, sch)
 
 
+def twin(schema, r):
+    """a schema that compares equal (==) to the given one but is a different schema: True/1, False/0, 1/1.0 in one constraint"""
+    paths = []
+
+    def walk(x, path):
+        if isinstance(x, dict):
+            for k, v in x.items():
+                if isinstance(v, bool) or (isinstance(v, int) and k in ('default', 'min', 'max', 'minlength', 'maxlength')):
+                    paths.append(path + (k,))
+                walk(v, path + (k,))
+        elif isinstance(x, list):
+            for i, v in enumerate(x):
+                walk(v, path + (i,))
+    walk(schema, ())
+    if not paths:
+        return None
+    path = r.choice(paths)
+    s2 = copy.deepcopy(schema)
+    cur = s2
+    for k in path[:-1]:
+        cur = cur[k]
+    v = cur[path[-1]]
+    cur[path[-1]] = (1 if v else 0) if isinstance(v, bool) else float(v)
+    return s2
+
+
 def call_json(call):
     return {"api": call[0], "document": common.jval(call[1]), "kwargs": call[2], "schema": common.jval(call[3]) if call[3] is not None else None}
 
@@ -146,6 +172,13 @@ def run(ctx):
         history = [gen_call(g, schema, alts) for _ in range(g.r.randrange(1, 7))]
         probe = gen_call(g, schema, alts)
         probe = (probe[0], probe[1], probe[2], None)
+        if g.r.random() < 0.3:
+            # the probe brings its own schema: one seen before, the validator's own, or a twin (equal under ==, different types)
+            cands = [schema] + alts + [c[3] for c in history if c[3] is not None]
+            base = g.r.choice(cands)
+            tw = twin(base, g.r) if g.r.random() < 0.6 else None
+            probe = (probe[0], g.doc_for(base, p_present=0.7), probe[2], tw or base)
+            dist["probe_with_schema" + ("_twin" if tw else "")] += 1
         d, skip = history_oracle(schema, cfg, history, probe)
         if skip:
             dist["skipped_raise"] += 1
@@ -181,24 +214,28 @@ def run(ctx):
     calls = [("validate", {'a': '1', 'c': {}}, {}, None), ("validate", {'a': 'x', 'b': 2}, {"update": True}, None),
              ("validate", {'b': 2, 'c': {'x': 1}}, {"normalize": False}, None), ("validated", {'a': 1, 'd': 2}, {}, None),
              ("normalized", {'a': '2'}, {}, None), ("validate", None, {}, None), ("validate", {'a': 1}, {}, {"bad": {"type": "nosuchtype"}}),
-             ("validate", {'q': 1}, {"update": True}, {'q': {'type': 'string'}})]
+             ("validate", {'q': 1}, {"update": True}, {'q': {'type': 'string'}}),
+             ("validate", {'q': None}, {}, {'q': {'type': 'string', 'nullable': True, 'default': 1}})]
+    # probes: the first five calls, and two per-call schemas that are twins (==, other types) of one used in the history
+    probes = calls[:5] + [("validate", {'q': None}, {}, {'q': {'type': 'string', 'nullable': 1, 'default': 1}}),
+                          ("validate", {}, {}, {'q': {'type': 'string', 'nullable': True, 'default': 1.0}})]
     maxlen = 3 if (thorough or ctx.get('searching')) else 2
     for L in range(1, maxlen + 1):
         for hist in itertools.product(range(len(calls)), repeat=L):
-            for p in range(5):
-                d, skip = history_oracle(pool_schema, {}, [calls[i] for i in hist], calls[p])
+            for p in range(len(probes)):
+                d, skip = history_oracle(pool_schema, {}, [calls[i] for i in hist], probes[p])
                 exhaustive += 1
                 if d and not skip:
                     violations.append({"signature": "history:" + d.split(" ")[0], "what": d,
                                        "replay": {"schema": common.jval(pool_schema), "config": {"d": []},
-                                                  "history": [call_json(calls[i]) for i in hist], "probe": call_json(calls[p])}})
+                                                  "history": [call_json(calls[i]) for i in hist], "probe": call_json(probes[p])}})
     dist["exhaustive_histories"] = exhaustive
     return {"violations": violations, "cases": checked + exhaustive, "nontrivial": checked + exhaustive, "model_cases": 0,
             "disagreements_checked": 0, "samples": samples, "distribution": dict(dist),
             "rule": "random histories of 1-6 calls (validate/validated/normalized, mixed update/normalize flags, valid and invalid documents, None and "
                     "non-mapping documents, accepted and rejected per-call schemas) on one instance followed by a probe, compared with the same probe on a "
                     "fresh instance of the schema in force: result, error keys, both trees node by node, processed document, rendered errors; plus all "
-                    "histories of length <= %d over a pool of 8 calls x 5 probes on a schema with coerce/readonly/excludes/nested default setters. "
+                    "histories of length <= %d over a pool of 9 calls x 7 probes (two of them per-call schemas that are ==-twins of one used before) on a schema with coerce/readonly/excludes/nested default setters. "
                     "Non-trivial = histories that completed without an undeclared exception." % maxlen}
 
 
